@@ -56,8 +56,10 @@ fn run_case(line: &str) -> String {
     let afd = a.as_raw_fd();
     let mut adapter = handle.adapt_io(a).expect("adapt");
     let ap: *mut calloop::io::Async<'static, UnixStream> = &mut adapter;
-    let flag = Arc::new(Flag(AtomicBool::new(false)));
-    let waker = Waker::from(flag.clone());
+    // every poll gets its OWN waker (the Future contract: the waker of the most recent poll is the one to wake); `flag` is the flag
+    // of the most recent poll, so a wake-up that goes to a stale waker does not count
+    let mut flag = Arc::new(Flag(AtomicBool::new(false)));
+    let mut waker = Waker::from(flag.clone());
     let mut cur: Option<(char, Wait<'_>)> = None;
     let mut out: Vec<String> = vec![];
     for op in line.split_whitespace() {
@@ -72,7 +74,8 @@ fn run_case(line: &str) -> String {
                 } else {
                     Box::pin(unsafe { (*ap).writable() })
                 };
-                flag.0.store(false, Ordering::SeqCst);
+                flag = Arc::new(Flag(AtomicBool::new(false)));
+                waker = Waker::from(flag.clone());
                 let mut cx = Context::from_waker(&waker);
                 match fut.as_mut().poll(&mut cx) {
                     Poll::Ready(()) => out.push("R".into()),
@@ -86,7 +89,8 @@ fn run_case(line: &str) -> String {
             }
             "t" => {
                 if flag.0.load(Ordering::SeqCst) && cur.is_some() {
-                    flag.0.store(false, Ordering::SeqCst);
+                    flag = Arc::new(Flag(AtomicBool::new(false)));
+                    waker = Waker::from(flag.clone());
                     let mut cx = Context::from_waker(&waker);
                     let done = match cur.as_mut().map(|(_, f)| f.as_mut().poll(&mut cx)) {
                         Some(Poll::Ready(())) => true,
